@@ -18,7 +18,12 @@ Inductive case :=
    the wire (encoded per RFC 8323 by Stream.Spec.encode_frame; the reads need not
    consume all of them), and per byte-level event (one socket read of n bytes at
    t / one tick) what the monitor was observed to do *)
-| SHist (t0 per mx : Z) (k : bool) (max : Z) (frames : list Stream.Spec.frame) (btrace : list (bev * list obs)).
+| SHist (t0 per mx : Z) (k : bool) (max : Z) (frames : list Stream.Spec.frame) (btrace : list (bev * list obs))
+(* several connections whose monitors were made by ONE cfg.CreateInactivityMonitor factory (one application of
+   options.WithInactivityMonitor / WithKeepAlive): creation times, Monitor.duration, maxRetries, keep-alive wiring?,
+   and the observed system trace: ((connection, event), what the monitor of THAT connection was seen to do); a
+   housekeeping round appears as one Tick item per connection *)
+| MHist (t0s : list Z) (per mx : Z) (k : bool) (mtrace : list (mev * list obs)).
 
 (* a frame of a case file: code, token, options (delta, value), payload = gen_body salt plen *)
 Definition Fr (code : Z) (tok : list Z) (opts : list (Z * list Z)) (salt : Z) (plen : nat) : Stream.Spec.frame :=
@@ -51,6 +56,13 @@ Fixpoint agree_from (c : cfg) (cobs : bool) (s : st) (tr : list (ev * list obs))
                    obsl_eqb (filter (visible cobs) o1) o && agree_from c cobs s1 r
   end.
 
+Fixpoint magree_from (c : cfg) (ss : list st) (tr : list (mev * list obs)) : bool :=
+  match tr with
+  | [] => true
+  | (me, o) :: r => let '(ss1, o1) := mstep c ss me in
+                    (fst me <? length ss)%nat && obsl_eqb (filter (visible false) o1) o && magree_from c ss1 r
+  end.
+
 Definition agrees (c : case) : bool :=
   match c with
   | Hist t0 per mx k cobs tr => agree_from {| period := per; maxr := mx; ka := k |} cobs (init t0) tr
@@ -66,6 +78,7 @@ Definition agrees (c : case) : bool :=
         (run_groups {| period := per; maxr := mx; ka := k |} (init t0)
            (abs max (concat (map Stream.Spec.encode_frame frames)) SM.init (map fst btrace)))
         (map snd btrace)
+  | MHist t0s per mx k tr => magree_from {| period := per; maxr := mx; ka := k |} (minit t0s) tr
   end.
 
 (* Property predicate on the OBSERVED trace, from Spec only: 0 = satisfied,
@@ -78,6 +91,10 @@ Definition pclass (c : case) : N :=
   | SHist t0 per mx k _ frames btrace =>
       stream_judge {| p_t0 := t0; p_period := per; p_max := mx; p_ka := k; p_look := lookahead |}
         (map Stream.Spec.frame_size frames) btrace
+  | MHist t0s per mx k tr =>
+      (* every connection on its own sub-trace *)
+      mjudge (fun i => {| p_t0 := nth i t0s 0; p_period := per; p_max := mx; p_ka := k; p_look := lookahead |})
+        (length t0s) tr
   end.
 
 Definition mismatches (cs : list case) : list N := bad_indices (fun c => negb (agrees c)) cs.
